@@ -1,7 +1,9 @@
 """Shared pieces: per-case observation record, guarded solver calls, canonical hashing."""
 
 import base64
+import copy
 import hashlib
+import os
 import pickle
 import traceback
 
@@ -65,6 +67,61 @@ class Crash:
         return f"<{self.kind}: {self.exc!r}>"
 
 
+# ---- "the caller owns what it gets back" ----------------------------------------------------------------------------
+# Every Result handed back through call() is given to the harness as a deep copy; the object the library returned is
+# kept and, when the next library call starts, its plain containers (lists / dicts / sets reachable from .solution and
+# .solutions) are emptied - what a caller does who sorts, pops or clears a returned list in place.  Containers that the
+# caller itself passed in are left alone.  A library that hands out containers it still uses (a memoised answer, a
+# work buffer, state shared between two Results) then shows a wrong answer at the public boundary of a later call.
+_PENDING = []
+SCRIBBLE = os.environ.get("VERIF_NO_SCRIBBLE") != "1"
+SCRIBBLED = [0]
+
+
+def _plain_containers(x, out, depth=0):
+    if depth > 4 or id(x) in out:
+        return
+    if isinstance(x, (list, dict, set)):
+        out[id(x)] = x
+    if isinstance(x, dict):
+        for v in list(x.values())[:200]:
+            _plain_containers(v, out, depth + 1)
+    elif isinstance(x, (list, tuple, set, frozenset)):
+        for v in list(x)[:200]:
+            _plain_containers(v, out, depth + 1)
+
+
+def _scribble_pending():
+    while _PENDING:
+        orig, own = _PENDING.pop()
+        found = {}
+        _plain_containers(getattr(orig, "solution", None), found)
+        _plain_containers(getattr(orig, "solutions", None), found)
+        for i, c in found.items():
+            if i in own:
+                continue
+            try:
+                c.clear()
+                SCRIBBLED[0] += 1
+            except Exception:
+                pass
+
+
+def _own_result(res, args, kwargs):
+    """Returns what the harness should see (a deep copy) and queues the library's object for scribbling."""
+    if not SCRIBBLE or not (hasattr(res, "solution") and hasattr(res, "status") and hasattr(res, "objective")):
+        return res
+    try:
+        seen = copy.deepcopy(res)
+    except Exception:
+        return res
+    own = {}
+    _plain_containers(args, own)
+    _plain_containers(kwargs, own)
+    _PENDING.append((res, own))
+    return seen
+
+
 def call(obs, fn, *args, budget=DEFAULT_BUDGET, what=None, hang_cls="hang", expect=(), **kwargs):
     """Run fn under a fuel budget.  Returns the result, or a Crash (after recording the violation).
 
@@ -74,6 +131,11 @@ def call(obs, fn, *args, budget=DEFAULT_BUDGET, what=None, hang_cls="hang", expe
     name = what or getattr(fn, "__name__", str(fn))
     obs.calls += 1
     m = Meter(budget)
+    if _PENDING:
+        before = SCRIBBLED[0]
+        _scribble_pending()
+        if SCRIBBLED[0] > before:
+            obs.event("caller.returned-containers-emptied", SCRIBBLED[0] - before)
     try:
         with m:
             res = fn(*args, **kwargs)
@@ -94,7 +156,7 @@ def call(obs, fn, *args, budget=DEFAULT_BUDGET, what=None, hang_cls="hang", expe
         obs.violate(f"crash:{type(e).__name__}", f"{name}: {e!r}\n{tb}")
         return Crash("crash", e)
     obs.fuel_max = max(obs.fuel_max, m.used)
-    return res
+    return _own_result(res, args, kwargs)
 
 
 def is_crash(x):
